@@ -5,7 +5,7 @@
 From Coq Require Import List Arith Bool.
 Import ListNotations.
 From C17 Require Import Sem Progs Static Annot FutRaw.
-From C17 Require Exec ExecLive Ss FutCopy0 Per Owner Sd WitnessR8 Conserve Pool ConserveAll PoolD PoolFin.
+From C17 Require Exec ExecLive Ss FutCopy0 Per Owner Sd WitnessR8 Conserve Pool ConserveAll PoolD PoolFin PoolRe.
 From Coq Require Import Permutation.
 
 (* Data-race freedom of the model: whenever a thread is about to execute an instruction that reads
@@ -329,6 +329,19 @@ Theorem c17_pool_invariant : forall n s, reach P (init_pool n) s -> PoolD.XD s.
 Proof. exact PoolFin.pool_xd. Qed.
 Print Assumptions c17_pool_invariant.
 
+(* ---- ThreadPool with two-stage jobs (scenario init_poolre n r: as init_pool, but the first r closures call
+   ThreadPool::Execute on the same pool when a worker runs them -- possibly after JoinAll() has set m_shutdown: Execute
+   queues and signals regardless of m_shutdown), every schedule, any n and r: lock discipline, and conservation:
+   closures handed in (by the owner or by a running closure) are exactly those run, in a worker's hand, or still
+   queued; in particular none is dropped.  PARTIAL: that the queue is empty when JoinAll() returns is NOT proved for
+   this scenario (c17_pool_drained covers init_pool only); it is checked per enumerated schedule (the driver reports
+   end=undrained) and shown for the owner-first schedule, where the follow-up is handed in after shutdown began
+   (ex_poolre_late_followup). *)
+Theorem c17_poolre_conserved : forall n r s, reach P (init_poolre n r) s ->
+  Inv P An s /\ Permutation (subm s) (map fst (ran s) ++ Conserve.curs s ++ que s PQ).
+Proof. exact PoolRe.poolre_conserved. Qed.
+Print Assumptions c17_poolre_conserved.
+
 (* ---- ExecutorThread where callbacks call Execute again from inside the callback (scenario init_execre), every
    schedule, any number of producers / callbacks / re-submissions: callbacks are conserved (none duplicated, none
    lost).  PARTIAL: uniqueness of the ids and the drained-at-destruction clause are not proved for this scenario. *)
@@ -347,3 +360,21 @@ Qed.
 (* the drained state is reachable: the hypothesis of c17_pool_drained is not vacuous *)
 Example ex_pool_drained : exists s, reach P (init_pool 2) s /\ stat (thr s 0) = Done /\ length (ran s) = 2.
 Proof. exact PoolFin.pool_drained_reachable. Qed.
+
+(* a follow-up handed to the pool after JoinAll() set m_shutdown is still run exactly once (owner-first schedule) *)
+Example ex_poolre_late_followup : exists s, reach P (init_poolre 1 1) s /\
+  stat (thr s 0) = Done /\ stat (thr s 1) = Done /\ stat (thr s 2) = Done /\
+  que s PQ = [] /\ subm s = [(0, 0); (1, 0)] /\ map fst (ran s) = [(0, 0); (1, 0)] /\ fault s = None.
+Proof. exact PoolRe.poolre_late_followup_runs. Qed.
+
+(* Future handle operations (scenario init_fut_asg): self-assignment is no operation; after g(f), g = f, h = f (which
+   frees the state h owned, object 3), swap(g, h) and the copy for the setter the shared state has four holders; the run
+   ends with both states freed and no use-after-free.  Witnesses by computation; all schedules are covered by
+   c17_lockset / c17_lock_discipline (initial includes init_fut_asg) and per enumerated schedule by the check. *)
+Example ex_futasg_refcount : exists s, reach P init_fut_asg s /\ pc (thr s 0) = 51 /\
+  var s REF = 4 /\ alive s 1 = true /\ alive s 3 = false /\ fault s = None.
+Proof. exact PoolRe.futasg_refcount. Qed.
+Example ex_futasg_finishes : exists s, reach P init_fut_asg s /\
+  stat (thr s 0) = Done /\ stat (thr s 1) = Done /\ alive s 1 = false /\ alive s 3 = false /\
+  outs s = [(0, OUT_GET, THE_VALUE)] /\ fault s = None.
+Proof. exact PoolRe.futasg_finishes. Qed.
